@@ -170,6 +170,8 @@ func buildOpts(prog []optSpec, w *world) ([]mod.Opts, error) {
 			out = append(out, mod.WithBuildArgRm(o.A, regexp.MustCompile(".*")))
 		case "ExternalURLsRm":
 			out = append(out, mod.WithExternalURLsRm())
+		case "RebaseAnnot": // by the base image annotations of the image
+			out = append(out, mod.WithRebase())
 		case "Rebase":
 			rOld, err := ref.New(w.refOld)
 			if err != nil {
